@@ -1,0 +1,27 @@
+//go:build verif
+
+package validator
+
+import "sync/atomic"
+
+// VerifCounters counts how often each counted loop head of the validator's walks was reached
+// (build tag `verif` only; see /verif, property C12). Indexed by the verifSite constants, in the
+// order of VerifCounterNames.
+var VerifCounters [verifSiteCount]int64
+
+// VerifCounterNames names the entries of VerifCounters.
+func VerifCounterNames() []string {
+	return []string{"cycle.outer", "cycle.inner", "vars.node", "vars.fragment", "fields.set", "fields.collect",
+		"fields.canMergePair", "fields.sameShape", "fields.sameShapePair"}
+}
+
+// VerifCountersSnapshot returns a copy of the counters.
+func VerifCountersSnapshot() []int64 {
+	out := make([]int64, verifSiteCount)
+	for i := range out {
+		out[i] = atomic.LoadInt64(&VerifCounters[i])
+	}
+	return out
+}
+
+func verifCount(site int) { atomic.AddInt64(&VerifCounters[site], 1) }
